@@ -215,6 +215,40 @@ pub fn scenarios(tier: Tier, which: &str) -> Vec<LineScn> {
 				slow_user: vec![0],
 			});
 		}
+		// "restarts at any point" with a manager that stopped being written at any earlier point (sticky
+		// hold, 1 deviation) and a crash at any later point (1 deviation): C02 for the forwarder, C03 for
+		// the sender
+		for (pol, pn) in [(ClaimPolicy::Claim, "claim"), (ClaimPolicy::Fail, "fail")] {
+			let list: Vec<(usize, usize, &str)> = if which == "C02" { vec![(3, 1, "b")] } else { vec![(2, 0, "a"), (3, 0, "a")] };
+			for (nodes, who, wn) in list {
+				if !th && which == "C03" && nodes == 3 {
+					continue;
+				}
+				let hops = if nodes == 2 { vec![(1, 0)] } else { vec![(1, 0), (2, 1)] };
+				v.push(LineScn {
+					name: format!("{}-{}-{}-lagging-manager-{}", n, if nodes == 2 { "ab" } else { "abc" }, pn, wn),
+					ct,
+					nodes,
+					ops: vec![Op::Send { from: 0, hops, amount_msat: 50_000_000, policy: pol.clone() }],
+					ops_first: true,
+					dev: Deviations {
+						reorder: None,
+						early_op: None,
+						crash: Some(1),
+						complete_reorder: None,
+						hold_manager: Some(1),
+						early_release: None,
+						..Deviations::default()
+					},
+					k: 2,
+					crash_nodes: vec![who],
+					async_from_start: vec![],
+					max_disconnects: 0,
+					on_chain: true,
+					slow_user: vec![],
+				});
+			}
+		}
 		if which == "C03" {
 			// direct payments with mixed outcomes
 			v.push(LineScn {
@@ -240,7 +274,12 @@ pub fn scenarios(tier: Tier, which: &str) -> Vec<LineScn> {
 }
 
 pub fn to_runner(s: LineScn, which: &'static str) -> Scenario {
-	let cfg = Config { max_deviations: s.k, horizon: 1500, ..Config::default() };
+	let mut cfg = Config { max_deviations: s.k, horizon: 1500, ..Config::default() };
+	if s.name.contains("lagging-manager") {
+		// a recorded finding lives here: keep exploring past it so that other violations are still seen
+		cfg.branch_below_violations = true;
+		cfg.max_violations = 5000;
+	}
 	let desc = json!({"check": which, "name": s.name});
 	let name = s.name.clone();
 	Scenario { name, cfg, factory: Box::new(move || build(&s, which)), desc }
